@@ -34,6 +34,9 @@ class Stub:
     def __init__(self, costs):
         self.costs = costs
         self.calls = 0
+        # like a DNAS model with a dict of cost specifications; deliberately listed in ANOTHER order than the regularizer's targets
+        # (the regularizer must pair costs and targets by name, never by position in the model's own dict)
+        self.cost_specification = {n: None for n in reversed(list(costs))}
 
     def get_cost(self, n):
         self.calls += 1
